@@ -18,22 +18,62 @@ CANDS = [k / 8 for k in range(-160, 161) if k != 0]
 data_seed = st.lists(st.sampled_from(CANDS), min_size=288, max_size=288, unique=True)
 
 
+EXTRA_KINDS = ("float32", "strided", "fortran", "nonfinite", "readonly", "negzero")
+
+
 def variant(data, kind):
-    if kind == "float":
+    if kind in ("float", "strided", "fortran", "readonly"):
         return data
     out = {}
+    if kind == "nonfinite":
+        # nan / inf entries in the 1-d, 2-d and 3-d operands (the nan* family otherwise never sees a nan)
+        for k, v in data.items():
+            v = v.copy()
+            if k in ("a", "b", "c", "a2") and v.ndim == 1:
+                v[1] = np.nan
+                v[4] = np.inf if k != "c" else -np.inf
+            elif k in ("M", "N", "M2", "nM"):
+                v[0, 1] = np.nan
+                v[2, 2] = np.inf
+            elif k == "T4":
+                v[0, 0, 0] = np.nan
+                v[1, 2, 3] = -np.inf
+            out[k] = v
+        return out
+    if kind == "negzero":
+        for k, v in data.items():
+            v = v.copy()
+            if k in ("a", "b", "M", "T4", "c"):
+                v.flat[0] = -0.0
+                v.flat[2] = 0.0
+            out[k] = v
+        return out
     for k, v in data.items():
-        if kind == "int":
+        if kind == "float32":
+            out[k] = v.astype("float32")
+        elif kind == "int":
             out[k] = np.rint(v * 8).astype("int64") if k not in ("S", "R", "Sym", "S6", "P4S", "nM3") else np.rint(v * 8).astype("int64")
         else:
             out[k] = v.astype("complex128") * (1 + 0.5j)
     return out
 
 
-def wrap_units(shared):
+def layout(x, kind):
+    """memory layout / flags of one operand (applied to the bare reference and to the unit-carrying twin alike)"""
+    if kind == "strided" and x.ndim >= 1:
+        return np.repeat(x, 2, axis=-1)[..., ::2]
+    if kind == "fortran" and x.ndim >= 2:
+        return np.asfortranarray(x)
+    if kind == "readonly":
+        x.setflags(write=False)
+    return x
+
+
+def wrap_units(shared, kind="float"):
     from unyt import unyt_array, unyt_quantity
 
     def w(x, role):
+        x = layout(x, kind)
         u = {"A": "m", "A2": "m", "B": "m" if shared else "s", "G": "rad", "I": "1/m"}[role]
         if x.shape == ():
             return unyt_quantity(x, u)
@@ -99,22 +139,23 @@ def judge_data(vals, part, templates=None):
     out = []
     base = C.make_data(lambda n: list(vals)[:n])
     base2 = C.make_data(lambda n: list(reversed(list(vals)))[:n])
-    for dkind in ("float", "int", "complex"):
+    extra = EXTRA_KINDS[int(round(abs(list(vals)[0]) * 8)) % len(EXTRA_KINDS)]
+    for dkind in ("float", "int", "complex", extra):
         data = variant(base, dkind)
         data2 = variant(base2, dkind)
         for fn, ex, fl in templates or C.all_templates():
             if "N" in fl or "S" in fl:
                 continue
-            if dkind != "float" and ("T" in fl and dkind == "int"):
-                pass
+            if dkind == "nonfinite" and ("T" in fl or "linalg" in ex or "polyfit" in ex or "corrcoef" in ex or "cov(" in ex):
+                continue  # LAPACK prints diagnostics for nan/inf matrices; nothing unit-related to learn there
             part.ev()
             try:
-                ref = C.evaluate(ex, data, lambda x, role: x)
+                ref = C.evaluate(ex, data, lambda x, role: layout(x, dkind))
             except Exception:
                 part.count(f"bare call raises ({dkind})")
                 continue
             try:
-                got = C.evaluate(ex, data, wrap_units("B" in fl))
+                got = C.evaluate(ex, data, wrap_units("B" in fl, dkind))
             except Exception as e:
                 part.count("unyt call raises (allowed)")
                 part.count(f"raises:{fn}:{type(e).__name__}")
@@ -150,7 +191,8 @@ def run(ctx):
     nt = len(C.all_templates())
     ctx.rule = (
         f"{nt} call templates over {len(C.CATALOG)} NumPy functions/methods/indexing forms (numpy, numpy.linalg, numpy.fft; positional, "
-        "keyword, in-place-target variants; 0-d/1-d/2-d/3-d/square shapes) x {float64,int64,complex128} x Hypothesis-drawn data sets "
+        "keyword, in-place-target variants; 0-d/1-d/2-d/3-d/square shapes) x {float64,int64,complex128} on every data set plus one of "
+        "{float32, non-contiguous strided views, Fortran order, nan/inf entries, read-only buffers, signed zeros} per data set x Hypothesis-drawn data sets "
         "(240 distinct dyadic rationals each); every template evaluated on bare copies and with units attached. non-trivial = distinct "
         "(function, template, dtype) whose bare result differs between two data sets"
     )
@@ -159,7 +201,7 @@ def run(ctx):
         "differences <= 8 ulp (relative to the largest magnitude of the result array) are classed as re-associated rounding",
         "string-producing functions and plain-ndarray constructors are not compared",
     ]
-    n = ctx.pick(64, 960)
+    n = ctx.pick(32, 960)
     ctx.merge(core.pmap(MOD, "part_random", [{"n": max(1, n // 16), "seed": ctx.seed * 1000 + i} for i in range(16)]))
     funcs = {fn for fn, _, _ in C.all_templates()}
     ctx.extra["functions_in_catalogue"] = len(funcs)
